@@ -64,8 +64,11 @@ def run(ctx):
     data = learn()
     blocks, raw_blocks = [], []
 
-    def add_block(b, impolite=False):
+    def add_block(b, impolite=False, little=False):
+        """little: the caller keeps its bits in little-endian bitarrays (same bit sequence, other storage order)"""
         err = ""
+        if little:
+            b = bitarray(b.tolist(), endian="little")
         enc = dec = encb = db = bitarray()
         try:
             if impolite:
@@ -81,9 +84,10 @@ def run(ctx):
                 if isinstance(d1, bytearray):
                     d1[0] ^= 0xFF
             enc = T.encode(b.copy())
-            encb = T.encode(b.tobytes())
-            dec = T.decode(enc.copy())
-            decb = T.decode(enc.copy(), as_bytes=True)
+            encb = T.encode(bytes(bitarray(b.tolist(), endian="big").tobytes()))
+            held = bitarray(enc.tolist(), endian="little") if little else enc.copy()
+            dec = T.decode(held)
+            decb = T.decode(bitarray(enc.tolist(), endian="little") if little else enc.copy(), as_bytes=True)
             db = bitarray()
             db.frombytes(decb)
         except Exception as ex:  # noqa: a failure on a valid block is an observation, not a harness error
@@ -108,7 +112,7 @@ def run(ctx):
         u[i] = 1
         add_block(u)
     for k in range(300 if ctx.quick else 20000):
-        add_block(bitarray([rng.getrandbits(1) for _ in range(144)]), impolite=k % 3 == 0)
+        add_block(bitarray([rng.getrandbits(1) for _ in range(144)]), impolite=k % 3 == 0, little=k % 4 == 1)
     for k in range(40):         # the same few blocks again and again, results damaged in between
         add_block(raw_blocks[k % 5][0].copy(), impolite=True)
     # the two permutations composed directly (the result of one handed straight to the other, earlier results kept)
@@ -156,6 +160,8 @@ def run(ctx):
             outcome = "raise:" + type(ex).__name__
         bad.append({"block": pack(b), "pos": pos, "point": point, "outcome": outcome})
         ctx.count(core.digest([pack(b), pos, point]))
+        if len(bad) % 4 == 0:
+            add_block(b.copy())          # a valid block right after a rejected / damaged stream: the decoder starts afresh
     data["blocks"], data["bad"] = blocks, bad
     path = os.path.join(ctx.rundir, "c10_data.json")
     json.dump(data, open(path, "w"))
